@@ -85,6 +85,10 @@ def _diff(a, b):
 def judge(case, col):
     cells = [int(x, 16) for x in case["cells"]]
     judge_cells(cells, case)
+    asc = sorted(set(cells))
+    if asc != cells:
+        # numerically ascending, duplicate-free input: the natural fast-path special case
+        judge_cells(asc, {"cells": [hex(c) for c in asc]}, literal=False)
     g, o = has_complete_group(cells), has_overlap(cells)
     classes = ["hyp" if case.get("src") != "fuzz" else "fuzz"]
     if g:
